@@ -2,6 +2,7 @@
 query fields unchanged."""
 import json
 import os
+import shutil
 
 from lib import vf
 
@@ -10,7 +11,8 @@ RULE_VERTEX = (
     "0..130 vertices on the 1/8-degree grid (ids in shuffled order, duplicates allowed), origin and optional "
     "destination on the 1/16 grid inside / on the hull / tens of degrees outside / exactly on a vertex / at the "
     "midpoint of two vertices, tolerance none or (great-circle distance of the nearest vertex) x "
-    "{0.5,0.999,1.001,2,0.1,10,0.9,1.1} in every DistanceUnit (and without unit), tolerance 0 / negative / the exact "
+    "{0.5,0.999,1.001,2,0.1,10,0.9,1.1} in every DistanceUnit (and without unit), and x {0.99,0.999,1.001,1.01,1.02} "
+    "(exact SI factor into the unit, origin and destination: a conversion constant off by 1-2 % is decided by S), tolerance 0 / negative / the exact "
     "boundary value, high latitudes (squared degrees and great circle disagree), coordinates outside the haversine "
     "range, missing / ill-typed coordinates, non-object queries, stale match keys and up to 4 foreign fields; "
     "one case in three is a SEQUENCE of 2-6 queries processed by ONE plugin instance (same coordinate repeated with / "
@@ -32,7 +34,10 @@ RULE_EDGE = (
     "the box of their end points, in networks large enough for internal r-tree nodes) whose geo centroid is exactly on the "
     "1/8-degree grid, queries on / near centroids and end points, road_classes in the query (integers or names through the parser mapping, "
     "unparseable values) excluding the nearest 0..5 edges, vehicle_parameters making the nearest 1..3 edges "
-    "inadmissible (verdict per edge from the real VehicleRestriction::valid), tolerance around the distance of the "
+    "inadmissible; restriction files carry 0-3 rows per edge in random order (the excluding row first / in the middle / "
+    "last, rows of one edge not contiguous) and an edge is admissible iff the vehicle passes EVERY row written for it "
+    "(each row judged by the real VehicleRestriction::valid; the plugin's restriction-file loader is NOT used for the "
+    "expected value), tolerance around the distance of the "
     "nearest ADMISSIBLE edge in every unit, boundary values, high-latitude cases where the nearer-by-degrees excluded "
     "edge is beyond the tolerance and the admissible one within. Guard families (reference points and queries at lat +-90 / lon +-180 / lon beyond 170, one ulp outside) and tolerance "
     "exactly equal / next-up / next-down of the real distance in Meters as for vertices (distance <= tolerance matches). "
@@ -55,7 +60,8 @@ def run(chk):
         "nearest first), not verified; exercised through the real plugins on every case",
         "f32 haversine: an oracle (values taken from the real function per case); geo::Centroid of the linestrings: "
         "taken from geo (the harness asserts the centroid is the intended grid point)",
-        "VehicleRestriction::valid / VehicleParameters::from_query: verdict per edge taken from the real functions (C04's arithmetic)",
+        "VehicleRestriction::valid / VehicleParameters::from_query: verdict per restriction ROW taken from the real functions (C04's "
+        "arithmetic); the conjunction over all rows of an edge is computed by the harness from the rows it wrote, not by the loader",
         "SPECIFICATION constants: exact SI metres per DistanceUnit (MM.si_m) and the relative band 5e-4 (MM.unit_band) "
         "inside which a distance counts as 'at' the tolerance (left open by the property)",
         "coq/Gen/UnitTables.v regenerated from distance_unit.rs by translator/tr_units.py (checked bit for bit by C09)",
@@ -80,6 +86,15 @@ def run(chk):
         chk.violation("broken-correspondence", "translator", {"translator": "tr_units", "error": tres.get("msg")},
                       tres.get("msg"), "distance_unit.rs has the shape the translator knows",
                       detail="coq/Gen/UnitTables.v could not be regenerated", found=False, key="translator")
+        # keep going with the last table that WAS read from a source the translator understands (the one of the
+        # main tree): the model then still runs, and the streams below search for the concrete failing input
+        # (the specification side never uses the table: it converts with the exact SI factors)
+        dst = os.path.join(vf.COQ, "Gen", "UnitTables.v")
+        src = os.path.join(vf.ROOT, "coq", "Gen", "UnitTables.v")
+        if not os.path.exists(dst) and os.path.exists(src):
+            os.makedirs(os.path.dirname(dst), exist_ok=True)
+            shutil.copy(src, dst)
+            chk.coverage["translator"]["fallback"] = "last good UnitTables.v of the main tree"
 
     # JSON-layer theorems print the kernel primitive type `float : Set` (Base/Json.v's JFloat); the driver reports it
     # under kernel_primitives. No primitive float OPERATION is used by any theorem (the reading of a JSON float is the
@@ -106,7 +121,7 @@ def run(chk):
             only = None
         if only not in ("vertex", "edge"):
             only = "vertex"
-    for stream, n, rule in (("vertex", 500 if quick else 6000, RULE_VERTEX), ("edge", 800 if quick else 6000, RULE_EDGE)):
+    for stream, n, rule in (("vertex", 600 if quick else 6000, RULE_VERTEX), ("edge", 900 if quick else 6000, RULE_EDGE)):
         if only not in (None, stream):
             continue
         r = vf.run_stream(binp, stream, n, chk.seed, os.path.join(chk.outdir, stream), replay=chk.replay)
